@@ -325,14 +325,21 @@ def gen() -> None:
 
 # the property's atoms
 ATOMS = ["..", ".", "", "/", "//", "\\", "C:", "C:\\", "c:/", "~", "%2e%2e", "%2e", "\x00", "a", "index.txt", "sub",
-         "..a", "a..", "...", ".hidden", "a.b.c"]
+         "..a", "a..", "...", ".hidden", "a.b.c", "\n"]
+# line breaks and other control / separator characters are legal in POSIX file names: as names, after a parent
+# reference, and inside absolute paths (a regex `.` or `$` treats some of them specially)
+CONTROL = ["\n", "\r", "\x0b", "\x0c", "\x1c", "\x1d", "\x1e", "\x85", "\u2028", "\u2029", "\x00"]
+CONTROL_SHAPES = ([c for c in CONTROL if c not in ("\n", "\x00")]
+                  + ["../" + c for c in CONTROL] + ["../out" + c + "side/secret.txt" for c in ("\n", "\r", "\u2028")]
+                  + ["..\n", "..\n/x", "\n/..", "../..\n", "a/../../\n", "/\n", "/etc\n/passwd", "//\n", "..\x00/..", "a\nb/../..",
+                     "in\nside/ok.txt", "sub/../../out\nside/secret.txt", "\n../x", "..\r\n"])
 # components assembled from them (each is a concatenation of atoms)
 ASSEMBLED = ["../", "../a", "a/..", "a/../..", "a/../../", "sub/../..", "./..", "..//", "../..", "/..", "/../a", "//..",
              "a/b", "a//b", "a/./b", "a/", "./a", "sub/inner.txt", "sub/../index.txt", "../outside_sentinel.txt",
              "sub/../../outside_sentinel.txt", "/etc/passwd", "//etc/passwd", "..\\", "\\..\\", "..\\..\\a", "~root", "~/a",
              "C:\\a", "c:/..", "%2e%2e/", "..%2f", "a\x00b", "..\x00", "\x00/..", "../\x00", ".../..", "..a/..", "a../..",
              "..a/../..", ".../../..", "./", ".//.", "a/b/../../..", "a/b/../..", "/", "///"]
-COMPONENTS = list(dict.fromkeys(ATOMS + ASSEMBLED))
+COMPONENTS = list(dict.fromkeys(ATOMS + ASSEMBLED + CONTROL_SHAPES))
 BASES = {
     "absolute": ["/srv/www", "/srv/www/", "/srv/../www", "//srv", "///srv/www//"],
     "relative": ["static", "static/", "./static", "../up", "a/../..", "..", "."],
@@ -414,6 +421,9 @@ def _mk_tree():
             continue
         put("root/" + rel, True)
     put("outside_sentinel.txt", False)
+    put("out\nside/secret.txt", False)            # a line feed in a directory name next to the root ...
+    put("out\rside/secret.txt", False)
+    put("root/in\nside/ok.txt", True)              # ... and one inside it (must be served)
     put("rootx/index.txt", False)                # prefix-confusable sibling
     put("index.txt", False)
     put("pkgs/outside_sentinel.txt", False)
@@ -460,7 +470,7 @@ def run(chk: Check) -> None:
 
     # ------------------------------------------------ posixpath model vs the interpreter
     np_cases = list(COMPONENTS) + [b for bs in BASES.values() for b in bs]
-    np_alpha = ["/", "/", ".", "..", "a", "b.c", "", "\x00", "\\", "//", "...", "..a", "~"]
+    np_alpha = ["/", "/", ".", "..", "a", "b.c", "", "\x00", "\\", "//", "...", "..a", "~", "\n", "\r", "\x85"]
     for _ in range(3000 if quick else 60000):
         np_cases.append("".join(rng.choice(np_alpha) + rng.choice(["", "/", "/", "//"]) for _ in range(rng.randint(0, 7))))
     for s in np_cases:
@@ -638,7 +648,9 @@ def _e2e(chk, wutils, SharedDataMiddleware, EnvironBuilder, NotFound, corpus) ->
                  "/" + os.path.join(T, "outside_sentinel.txt"), "../rootx/index.txt", "../index.txt", "..", "../",
                  "../../../outside_sentinel.txt", "..a/../../outside_sentinel.txt", "./../outside_sentinel.txt",
                  "a/../../outside_sentinel.txt", ".../../../outside_sentinel.txt", "sub/../..//outside_sentinel.txt",
-                 "../root/index.txt", "sub/../../root/index.txt", "\\/../../outside_sentinel.txt"]
+                 "../root/index.txt", "sub/../../root/index.txt", "\\/../../outside_sentinel.txt",
+                 "../out\nside/secret.txt", "sub/../../out\nside/secret.txt", "../out\rside/secret.txt",
+                 os.path.join(T, "out\nside", "secret.txt"), "in\nside/ok.txt", "in\nside/../../out\nside/secret.txt"]
         tails = ["outside_sentinel.txt", "index.txt", "rootx/index.txt", "root/index.txt", "inner.txt", "x.txt", "b"]
         paths: list[tuple[str, ...]] = [tuple(p) for p in corpus.get("request_paths", [])] + [(p,) for p in reach + COMPONENTS]
         paths += [(a, b) for a in COMPONENTS for b in tails] if not quick else []
